@@ -609,14 +609,15 @@ def _nontrivial(cov):
 class C06(Spec):
     id = 'C06'; engine = 'life'; harness = 'h_life'; driver = 'drv_life'
     generators = ('Life',)
-    harness_flags = ('-Wl,--wrap=free', '-Wl,--wrap=calloc')
+    harness_flags = ('-Wl,--wrap=free', '-Wl,--wrap=calloc', '-Wl,--wrap=realloc')
     harness_timeout = 300
     technique = ('Lean 4 proof by induction over histories with a nested induction over destructor cascades — an exact-effect invariant for exactly-once, '
                  'a potential-object invariant (what is in no table never comes back; what enters has a fresh identity) for safety under nested collections — '
                  '(source-derived switches regenerated each run): model of '
                  'GC_Set/GC_Rem/GC_Rem_Ptr/GC_Sweep/GC_Del/GC_Unmark/alloc_by/dealloc/del_by/Box_Del, of destructors that allocate (nested collections on the '
                  'collector\'s one pending list), of mark phases left by an exception (stale mark bits) and of del(NULL) from the program and from destructors, with ledger; differential check of the model against '
-                 'the real collector (destructor ledger, pending list, registry) on generated histories')
+                 'the real collector (destructor ledger, pending list, registry, live table blocks of the collector) on generated histories; '
+                 'finite pointer-state model of the collector\'s own tables run on statement lists extracted from GC_Rehash/GC_Sweep/GC_Del (invariant by exhaustive case distinction)')
     level_text = ('Theorem C06_no_double (+ C06_ledger_only_grows, C06_registered_inert): for EVERY well-formed history of new/new_root/new_raw, '
                   'alloc/alloc_root/alloc_raw, del/del_root/del_raw, dealloc_raw(destruct), ownership links, collections with any marked set and any '
                   'slot order, stop/start, teardown, destructors that allocate (nested collections on the pending list of the sweep in progress '
@@ -628,6 +629,9 @@ class C06(Spec):
                   'change nothing) and C06_no_null_deref (every history, no hypothesis: the collector never runs dealloc(destruct(NULL))) cover the territories repaired by fixes '
                   'd8f0c4f and d3e4e44; the code before each fix is an explicit OLD variant of the model, refuted on the former witnesses (C06_stale_marks_old_refuted, C06_del_null_old_refuted). '
                   'For histories with allocating destructors, and for dealloc of registered objects, the exactly-once statements are refuted on witnesses (known findings). '
+                  'Theorems C06_collector_tables_released / _while_working (every sequence of registrations, removals and sweeps, rehashing or not, nested in any way, then GC_Del: every entry table and pending list '
+                  'the collector allocated is freed exactly once, no free/realloc of a dangling pointer, the TLS slot is cleared; statement lists extracted from GC_Rehash/GC_Sweep/GC_Del) and '
+                  'C06_thread_setup_teardown_order / C06_main_setup_teardown_order (extracted step lists of Thread_Init_Run, Cello_Exit, the main macro: collector and exception record exist around the thread function and around GC_Del). '
                   'The model is tied to the real GC.c/Alloc.c/Pointer.c by running thousands of histories on both (event sequences, pending '
                   'lists, registry contents, mitems), in main and worker threads, with an independent ledger oracle and ASan.')
     level_note = ('Trusted: Lean kernel; the harness/driver comparison (testing); registry layout is abstract (C17), the mark phase is a '
@@ -647,19 +651,22 @@ class C06(Spec):
             'built with ref(), also closed at random inside (a), reclaimed by forced collection, real mark, teardown, or explicit del of one member; '
             '(d) an object whose destructor allocates 1..4 leaves deleted explicitly while 0..5 others are held (the registration inside the destructor '
             'runs a collection when few objects are registered; harmless outside a sweep); (e) everywhere: 15% of the arena objects (half or all of them in a '
-            'third of the chains and rings) have destructors that also do del(NULL), del(NULL) by the program, and mark phases that an exception leaves (the anchor\'s Mark '
+            'third of the chains and rings) have destructors that also do del(NULL) and throw and catch an exception of their own (also when GC_Del runs them at thread exit), del(NULL) by the program, and mark phases that an exception leaves (the anchor\'s Mark '
             'instance reports some held objects and throws) after which the program often drops what was marked; (f) 1..5 held leaves/boxes marked by an abandoned '
             'mark phase, dropped, and reclaimed by teardown, the next real collection, the threshold collection of later registrations, a forced sweep or explicit del. '
             'non-trivial history = at least one destructor-issued del met '
             'the pending list, the registry, or an already finalised object during a sweep, or a destructor allocated, or a sweep reclaimed an object whose '
             'mark bit an abandoned mark phase had left set, or a destructor did del(NULL) while a cleared slot was on the pending list; distinct = distinct history text.')
-    trusted_base = ('translate/g_life.py (regex over GC_Rem_Ptr, GC_Sweep, GC_Set, GC_Rem, GC_Del, GC_Mark (prologue), GC_Unmark, Cello_Exit, alloc_by, alloc*, dealloc*, del_by, Box_Del, Thread_Init_Run)',
+    trusted_base = ('translate/g_life.py (regex over GC_Rem_Ptr, GC_Sweep, GC_Set, GC_Rem, GC_Del, GC_Mark (prologue), GC_Unmark, Cello_Exit, alloc_by, alloc*, dealloc*, del_by, Box_Del, Thread_Init_Run; '
+                    'top-level statement reader + one regex per statement for GC_Rehash, GC_Sweep, GC_Del, GC_Resize_More/Less, Thread_Init_Run, Cello_Exit, the main macro of Cello.h: a statement with no word in the model is an ExtractError)',
                     'harness/h_life.c + lean/Driver/Life.lean (correspondence is testing): ledger hooks in probe destructors / arena dealloc / --wrap=free',
                     'the registry layout (robin-hood table) is abstracted to a duplicate-free list; slot order is a quantified parameter (C17 covers the layout)',
                     'the mark phase is a quantified parameter: any marked set (C01 covers marking); the bits an abandoned mark phase leaves set are a quantified parameter too (Op.markAbort marks); '
                     'in the OLD variant Cfg.staleMarks they persist until the next sweep (a rehash of the real table, which also clears them, is not modelled: the registry layout is abstract)',
                     'object identities are never reused within a history in the model (a C address is reused only after free)',
-                    'the collector\'s own tables (entries, freelist) and the per-thread wrapper/TLS/Exception objects are not in the ledger model: covered by ASan and the block accounting of the harness only',
+                    'the collector\'s own tables (entries, freelist) are a second, finite model (Cello/LifecycleMem.lean: pointer states null/live/dangling) run on the statement lists g_life.py reads from GC_Rehash, GC_Sweep, GC_Del; '
+                    'which rehashes happen (GC_Ideal_Size, C17) and how events nest are quantified parameters there; the harness counts the real blocks through --wrap=calloc/realloc/free (a pending list is a block whose address was seen in gc->freelist while a destructor ran). '
+                    'Thread_Init_Run / Cello_Exit / the main macro are step lists with a liveness check (collector, exception record, argument tuple); the Thread wrapper object, the TLS table and the Exception object\'s own blocks are covered by ASan only',
                     'one collector per theorem; a del issued by another thread is C13_foreign_del (Props/C13.lean)')
     assumptions = ('the program deletes an object at most once and never an object that a live Box owns; each object has at most one owner (ownership may be cyclic: rings of boxes, self-owning boxes; no raw ring members); owners do not own raw objects (known finding F28 of C05)',
                    'sole ownership (a program obligation, hypothesis hsole of C06_collect_respects_marks): what an unmarked object owns is itself unmarked, i.e. an object the program still reaches is not also owned by garbage — generated marked sets are whole ownership trees; objects reachable by the program are marked',
@@ -780,5 +787,11 @@ class C06(Spec):
             else: acc['op_' + t] = acc.get('op_' + t, 0) + 1
             m = re.search(r'ev=(\S*)', l)
             if m and m.group(1): acc['finalise_events'] = acc.get('finalise_events', 0) + m.group(1).count('f')
+        # the collector's own tables: entry tables allocated / released (every GC_Rehash: one of each), pending lists seen / released
+        for l in core.lines_with('I ', c_out):
+            m = re.search(r'tables entry=(\d+)/(\d+) pending=(\d+)/(\d+) dtor_catches=(\d+)', l)
+            if m:
+                for k, v in zip(('entry_tables_allocated', 'entry_tables_released', 'pending_lists_seen', 'pending_lists_released', 'dtor_throw_catch'), m.groups()):
+                    acc[k] = acc.get(k, 0) + int(v)
 
 SPEC = C06()
